@@ -1,6 +1,7 @@
 package main
 
 import (
+	"go/types"
 	"fmt"
 	"go/constant"
 	"strings"
@@ -18,6 +19,7 @@ func init() {
 		Rules: []string{
 			"C41.R1 WMC: standard output writers",
 			"C41.R2 MPT/shape: failing commands exit non-zero; panics become errors",
+			"C41.R4 flow: per-input errors collected by a handler reach its returned error on every path",
 			"C41.R3 MPT: stdin read errors are fatal; logger silenced when stdout carries the document",
 		},
 		Assumptions: []string{"cobra calls RunE and hands its error to Execute's caller"},
@@ -57,6 +59,8 @@ func runC41(c *Ctx) {
 	r.MinInst["C41.R1"] = 5
 	r.MinInst["C41.R2"] = 3
 	r.MinInst["C41.R3"] = 2
+	r.MinInst["C41.R4"] = 1
+	checkErrorAccumulators(c)
 	// reachability from exported api/cli entry points (for debug dumps)
 	var roots []*ssa.Function
 	for _, fn := range p.Funcs {
@@ -308,5 +312,148 @@ func runC41(c *Ctx) {
 		default:
 			r.OK("C41.R3", FuncID(fn), "logger-silenced", p.Pos(fn.Pos()), "every path returning os.Stdout as writer has silenced the CLI logger", true)
 		}
+	}
+}
+
+// ---------------- C41.R4 (round 2 of seeding): collected per-input errors reach the exit status ----------------
+//
+// A CLI handler that keeps going after a failing input collects the errors in a local []error. After the first append, every
+// return must either return an error that depends on errors.Join(thatSlice...) or lie on the edge where the joined error was
+// tested nil: returning the partial result with a nil error (e.g. only in --json mode) makes a failing command exit 0.
+func checkErrorAccumulators(c *Ctx) {
+	p, r := c.P, c.R
+	n := 0
+	for _, fn := range p.Funcs {
+		fid := FuncID(fn)
+		if !strings.HasPrefix(fid, "pkg/cli.") && !strings.HasPrefix(fid, "cmd/pdfcpu.") {
+			continue
+		}
+		if !isErrorResult(fn) {
+			continue
+		}
+		fn := fn
+		// accumulator cells: local []error values that are appended to
+		type acc struct {
+			appends []*ssa.Call
+			joins   []*ssa.Call
+		}
+		accs := map[string]*acc{}
+		keyOf := func(v ssa.Value) string {
+			// the variable behind an SSA value: phi comment / alloc name
+			switch x := v.(type) {
+			case *ssa.Phi:
+				return x.Comment
+			case *ssa.UnOp:
+				return accessPath(x)
+			}
+			return ""
+		}
+		eachInstr(fn, func(_ *ssa.BasicBlock, _ int, i ssa.Instruction) {
+			call, ok := i.(*ssa.Call)
+			if !ok {
+				return
+			}
+			if b, ok := call.Call.Value.(*ssa.Builtin); ok && b.Name() == "append" {
+				sl, ok := call.Type().Underlying().(*types.Slice)
+				if !ok || !isErrorType(sl.Elem()) {
+					return
+				}
+				k := ""
+				// name of the variable the result is assigned to: the phi it feeds, or the stored cell
+				for _, rf := range *call.Referrers() {
+					if phi, ok := rf.(*ssa.Phi); ok && phi.Comment != "" {
+						k = phi.Comment
+					}
+					if st, ok := rf.(*ssa.Store); ok {
+						k = accessPath(st.Addr)
+					}
+				}
+				if k == "" {
+					k = keyOf(call.Call.Args[0])
+				}
+				if k == "" {
+					return
+				}
+				if accs[k] == nil {
+					accs[k] = &acc{}
+				}
+				accs[k].appends = append(accs[k].appends, call)
+			}
+		})
+		if len(accs) == 0 {
+			continue
+		}
+		eachInstr(fn, func(_ *ssa.BasicBlock, _ int, i ssa.Instruction) {
+			call, ok := i.(*ssa.Call)
+			if !ok {
+				return
+			}
+			if _, ref := callRef(call); ref != "errors.Join" || len(call.Call.Args) != 1 {
+				return
+			}
+			k := keyOf(call.Call.Args[0])
+			if a := accs[k]; a != nil {
+				a.joins = append(a.joins, call)
+			}
+		})
+		for k, a := range accs {
+			n++
+			construct := "error accumulator " + k
+			pos := p.Pos(a.appends[0].Pos())
+			if len(a.joins) == 0 {
+				r.Bad("C41.R4", fid, construct, pos, "errors are collected in "+k+" but never joined into the returned error: a failing input does not make the command fail")
+				continue
+			}
+			after := map[*ssa.BasicBlock]bool{}
+			for _, ap := range a.appends {
+				after[ap.Block()] = true
+				for b := range reachableBlocks(ap.Block()) {
+					after[b] = true
+				}
+			}
+			bad := ""
+			for _, ret := range returnsOf(fn) {
+				if !after[ret.Block()] {
+					continue
+				}
+				ok := false
+				for _, j := range a.joins {
+					for _, rv := range ret.Results {
+						if isErrorType(rv.Type()) && errDependsOn(rv, j, 0, map[ssa.Value]bool{}) {
+							ok = true
+						}
+					}
+					for _, e := range nilCheckEdges(j, true) {
+						if edgeDominates(e, ret.Block()) {
+							ok = true
+						}
+					}
+				}
+				if kind, has := returnErrKind(ret); has && kind == errNonNil {
+					ok = true
+				}
+				// a return of some other error on the edge where that error is non-nil fails the command as well
+				for _, rv := range ret.Results {
+					if isErrorType(rv.Type()) {
+						for _, e := range nilCheckEdges(rv, false) {
+							if edgeDominates(e, ret.Block()) {
+								ok = true
+							}
+						}
+					}
+				}
+				if !ok {
+					bad = posOrFn(p, ret, fn)
+				}
+			}
+			if bad == "" {
+				r.OK("C41.R4", fid, construct, pos, "every return after the first collected error returns errors.Join(…) of the collection or lies on its nil edge", true)
+			} else {
+				r.Bad("C41.R4", fid, construct, bad, "this return is reachable after per-input errors were collected in "+k+" but neither returns their join nor lies on the edge where the join was nil: the command prints a partial result and exits 0 although an input failed")
+			}
+		}
+	}
+	if n == 0 {
+		r.Bad("C41.R4", "pkg/cli", "anchor", "", "UNRESOLVED-ANCHOR: no []error accumulator found in the CLI handlers")
 	}
 }
